@@ -236,7 +236,7 @@ pub fn run_pipeline(
         }
     }
 
-    if cl.is_single_and_builtin() {
+    if cl.runs_in_shell(capture) {
         // the builtin ran in the shell itself: nobody else closes the
         // capture pipes
         if let Some(fds) = fds_capture_stdout {
@@ -285,7 +285,7 @@ fn run_single_program(
     fds_capture_stderr: &Option<(RawFd, RawFd)>,
 ) -> i32 {
     let capture = options.capture_output;
-    if cl.is_single_and_builtin() {
+    if cl.runs_in_shell(capture) {
         // a redirection target that cannot be opened fails the command;
         // the builtins open their targets only when (and if) they print.
         for item in &cl.commands[idx_cmd].redirects_to {
@@ -471,8 +471,12 @@ fn run_single_program(
                 // in this child descriptors 1 and 2 already are the capture
                 // pipes or the redirection targets: the builtin must print on
                 // them (capture = false); text kept in the child's own
-                // CommandResult would be lost when the child exits.
-                if let Some(status) = try_run_builtin_in_subprocess(sh, cl, idx_cmd, false) {
+                // CommandResult would be lost when the child exits. The
+                // redirections have been applied to 1 and 2 just above; the
+                // builtin's own printing must not apply them a second time.
+                let mut cl_child = cl.clone();
+                cl_child.commands[idx_cmd].redirects_to.clear();
+                if let Some(status) = try_run_builtin_in_subprocess(sh, &cl_child, idx_cmd, false) {
                     process::exit(status);
                 }
             }
